@@ -704,6 +704,12 @@ def _cases():
                 4: dict(index='j', preserved=['_rise_xs'], using=[], invariant=[
                     "forall(i, 0 <= i < j, _rise_xs[i] <= last_decay)"]),
             }))
+    # C19: any other first_extrema value is rejected (after the search itself went through, as the code is written)
+    base = dict(out[0])
+    out.append(dict(base, label='first=other,fk=None',
+                    params=dict(base['params'], first_extrema=STR),
+                    requires=list(base['requires']) + ["first_extrema != 'peak' and first_extrema != 'trough'"],
+                    raises={'ValueError': 'True'}, ensures=[], ensures_using={}))
     return out
 
 
